@@ -459,8 +459,19 @@ def run_case(case):
                        "example_mutations": [m[0] for m in muts[-5:]]}}
 
 
+_PIL_DEFAULT_MAX_PIXELS = int(1024 * 1024 * 1024 // 4 // 3)     # Pillow's documented default
+
+
 def _pillow_valid(np, b, C, npix):
+    """The oracle's own reading of the file with Pillow in its DEFAULT configuration: the
+    process-wide settings (pixel limit, tolerance for truncated files) are set to the
+    library defaults for the duration of the call and put back as the code under test
+    left them."""
     import PIL.Image
+    import PIL.ImageFile
+    saved = (PIL.Image.MAX_IMAGE_PIXELS, PIL.ImageFile.LOAD_TRUNCATED_IMAGES)
+    PIL.Image.MAX_IMAGE_PIXELS = _PIL_DEFAULT_MAX_PIXELS
+    PIL.ImageFile.LOAD_TRUNCATED_IMAGES = False
     try:
         img = PIL.Image.open(io.BytesIO(b))
         if img.format != "JPEG":
@@ -468,6 +479,8 @@ def _pillow_valid(np, b, C, npix):
         img.load()
     except Exception:  # noqa: BLE001
         return None
+    finally:
+        PIL.Image.MAX_IMAGE_PIXELS, PIL.ImageFile.LOAD_TRUNCATED_IMAGES = saved
     if (C == 1 and img.mode != "L") or (C == 3 and img.mode != "RGB"):
         return None
     if img.size[0] * img.size[1] != npix:
